@@ -17,6 +17,7 @@
   (signature wrapping, known finding C02/xsw-first-signature-not-own): `C02_counterexample`.
 -/
 import PysamlModel.Proofs.Xsw
+import PysamlModel.Proofs.XswFlow
 import PysamlModel.Spec.C02
 
 namespace C02
@@ -265,5 +266,174 @@ theorem C02_counterexample : ¬ C02_full := by
   have hcov : coveredB evilDoc 1 = false := by decide
   rw [hcov] at this
   cases this
+
+/-! ### across the encryption boundary: what `parse_assertion` adopts has been checked (Model/XswFlow.lean) -/
+
+
+/-- C02 (flow): when assertion signatures are required and `parse_assertion` gets through its signature stage,
+    EVERY adopted assertion — clear or carried by an EncryptedAssertion, wherever it stands relative to the
+    others and whatever ID / signature it carries — went through the signature check, on the document it was
+    read from, and the check succeeded.  For every pair of documents and every check function. -/
+theorem C02_flow_adopted_checked (recv decr : XNode) (chk : Bool → Path → Bool) (ad : List Adopted)
+    (h : (flow recv decr true chk).adopted = some ad) :
+    ∀ a ∈ ad, chk a.isDecr a.path = true := by
+  unfold flow at h
+  cases hp : plan recv decr true with
+  | none => simp [hp] at h
+  | some pa =>
+    obtain ⟨acts, ad'⟩ := pa
+    rw [hp] at h
+    simp only at h
+    cases hr : (runActs chk acts).2 with
+    | false => simp [hr] at h
+    | true =>
+      simp only [hr, if_true, Option.some.injEq] at h
+      subst h
+      obtain ⟨hnf, hall⟩ := runActs_ok chk acts hr
+      unfold plan at hp
+      simp only at hp
+      split at hp
+      · cases hp
+      · -- the clear assertions: their step is in the first stage
+        have hclear : ∀ q ∈ kidsWith recv [] tAssertion,
+            (∀ x ∈ actMust true false q, x ∈ acts) → chk false q.1 = true := by
+          intro q _ hsub
+          by_cases hs : hasSig q.2 = true
+          · exact hall false q.1 (hsub _ (by simp [actMust, hs]))
+          · exact absurd (hsub .fail (by simp [actMust, hs])) hnf
+        split at hp
+        · simp only [Option.some.injEq, Prod.mk.injEq] at hp
+          obtain ⟨hacts, had⟩ := hp
+          intro a ha
+          rw [← had] at ha
+          simp only [List.mem_append, List.mem_map] at ha
+          rcases ha with ⟨q, hq, rfl⟩ | ⟨q, hq, rfl⟩
+          · -- decrypted: signed -> checked by decrypt_assertions; unsigned -> refused by _assertion
+            show chk true q.1 = true
+            by_cases hs : hasSig q.2 = true
+            · apply hall true q.1
+              rw [← hacts]
+              simp only [List.mem_append, List.mem_flatMap]
+              exact Or.inl (Or.inl (Or.inr ⟨q, hq, by simp [actIfSigned, hs]⟩))
+            · apply absurd _ hnf
+              rw [← hacts]
+              simp only [List.mem_append, List.mem_flatMap]
+              exact Or.inr ⟨q, hq, by simp [actPresence, hs]⟩
+          · show chk false q.1 = true
+            apply hclear q hq
+            intro x hx
+            rw [← hacts]
+            simp only [List.mem_append, List.mem_flatMap]
+            exact Or.inl (Or.inl (Or.inl ⟨q, hq, hx⟩))
+        · simp only [Option.some.injEq, Prod.mk.injEq] at hp
+          obtain ⟨hacts, had⟩ := hp
+          intro a ha
+          rw [← had] at ha
+          simp only [List.mem_map] at ha
+          obtain ⟨q, hq, rfl⟩ := ha
+          show chk false q.1 = true
+          apply hclear q hq
+          intro x hx
+          rw [← hacts]
+          simp only [List.mem_flatMap]
+          exact ⟨q, hq, hx⟩
+
+/-- every check the flow records is one `chk` answered (no result is invented, none is remembered from elsewhere) -/
+theorem C02_flow_calls_are_checks (recv decr : XNode) (requireSig : Bool) (chk : Bool → Path → Bool) :
+    ∀ d p r, (d, p, r) ∈ (flow recv decr requireSig chk).calls → r = chk d p := by
+  intro d p r h
+  unfold flow at h
+  cases hp : plan recv decr requireSig with
+  | none => simp [hp] at h
+  | some pa =>
+    rw [hp] at h
+    exact (runActs_calls chk pa.1 d p r h).2
+
+/-- an adopted assertion is an element tagged Assertion of the document it is attributed to -/
+theorem C02_flow_adopted_is_assertion (recv decr : XNode) (requireSig : Bool) (chk : Bool → Path → Bool)
+    (ad : List Adopted) (h : (flow recv decr requireSig chk).adopted = some ad) :
+    ∀ a ∈ ad, ∃ item, nodeAt (a.doc recv decr) a.path = some item ∧ item.tag = tAssertion := by
+  unfold flow at h
+  cases hp : plan recv decr requireSig with
+  | none => simp [hp] at h
+  | some pa =>
+    obtain ⟨acts, ad'⟩ := pa
+    rw [hp] at h
+    simp only at h
+    cases hr : (runActs chk acts).2 with
+    | false => simp [hr] at h
+    | true =>
+      simp only [hr, if_true, Option.some.injEq] at h
+      subst h
+      have hclear : ∀ q ∈ kidsWith recv [] tAssertion, nodeAt recv q.1 = some q.2 ∧ q.2.tag = tAssertion := by
+        intro q hq
+        obtain ⟨i, hp1, hk, ht⟩ := kidsWith_spec recv [] tAssertion q hq
+        exact ⟨by rw [hp1]; exact nodeAt_kid recv recv [] i q.2 rfl hk, ht⟩
+      unfold plan at hp
+      simp only at hp
+      split at hp
+      · cases hp
+      · split at hp
+        · simp only [Option.some.injEq, Prod.mk.injEq] at hp
+          intro a ha
+          rw [← hp.2] at ha
+          simp only [List.mem_append, List.mem_map] at ha
+          rcases ha with ⟨q, hq, rfl⟩ | ⟨q, hq, rfl⟩
+          · exact ⟨q.2, carried_spec decr decr [] rfl q hq⟩
+          · exact ⟨q.2, hclear q hq⟩
+        · simp only [Option.some.injEq, Prod.mk.injEq] at hp
+          intro a ha
+          rw [← hp.2] at ha
+          simp only [List.mem_map] at ha
+          obtain ⟨q, hq, rfl⟩ := ha
+          exact ⟨q.2, hclear q hq⟩
+
+/-- C02 (flow, composed with `C02_covered_partial_b`): with `_check_signature` as the check, every adopted
+    assertion whose own signature comes first is covered by the key-holder's signature — whether it came in
+    clear or inside an EncryptedAssertion. -/
+theorem C02_flow_adopted_covered (recv decr : XNode) (key : Nat) (schema : Bool → Path → Bool) (ad : List Adopted)
+    (h : (flow recv decr true
+            (fun d p => checkSignature (if d then decr else recv) p tAssertion key (schema d p))).adopted = some ad) :
+    ∀ a ∈ ad, ∃ item, nodeAt (a.doc recv decr) a.path = some item ∧
+      ∀ sig si j k, OwnSigFirst item sig si j k → coveredB item key = true := by
+  intro a ha
+  obtain ⟨item, hitem, htag⟩ := C02_flow_adopted_is_assertion recv decr true _ ad h a ha
+  have hchk := C02_flow_adopted_checked recv decr _ ad h a ha
+  refine ⟨item, hitem, ?_⟩
+  intro sig si j k hown
+  cases a with
+  | clear p =>
+    exact C02_covered_partial_b recv item sig si p tAssertion key (schema false p) j k hitem htag hown
+      (by simpa [Adopted.isDecr, Adopted.path] using hchk)
+  | decrypted p =>
+    exact C02_covered_partial_b decr item sig si p tAssertion key (schema true p) j k hitem htag hown
+      (by simpa [Adopted.isDecr, Adopted.path] using hchk)
+
+/-! non-vacuity of the flow theorems: a genuine signed assertion next to an EncryptedAssertion that carries a
+    doctored copy with the same ID and the copied signature (ideal decryption: `decr` holds the plaintext) -/
+private def tResp := "{urn:oasis:names:tc:SAML:2.0:protocol}Response"
+private def sAssertion (who : String) : XNode :=
+  el tAssertion [("ID", "a1")] [
+    signature "#a1" (el tAssertion [("ID", "a1")] [el "NameID" [] [.text "alice"]]) 1,
+    el "NameID" [] [.text who]]
+private def recvDoc : XNode :=
+  el tResp [("ID", "r1")] [sAssertion "alice", el tEncryptedAssertion [] [el tEncryptedData [] [.junk "cipher"]]]
+private def decrDoc : XNode :=
+  el tResp [("ID", "r1")] [sAssertion "alice", el tEncryptedAssertion [] [sAssertion "mallory"]]
+private def chkOn (recv decr : XNode) : Bool → Path → Bool :=
+  fun d p => checkSignature (if d then decr else recv) p tAssertion 1 true
+
+/-- the genuine message alone is adopted … -/
+example : (flow (el tResp [("ID", "r1")] [sAssertion "alice"]) (el tResp [] []) true
+            (chkOn (el tResp [("ID", "r1")] [sAssertion "alice"]) (el tResp [] []))).adopted = some [.clear [0]] := by decide
+/-- … the doctored copy behind the encryption boundary is checked on the decrypted text and refused
+    (two elements named Assertion carry ID a1 there) … -/
+example : (flow recvDoc decrDoc true (chkOn recvDoc decrDoc)).adopted = none := by decide
+example : (flow recvDoc decrDoc true (chkOn recvDoc decrDoc)).calls = [(false, [0], true), (true, [1, 0], false)] := by decide
+/-- … and an unsigned one is refused when signatures are required, adopted when they are not -/
+private def decrUnsigned : XNode :=
+  el tResp [("ID", "r1")] [sAssertion "alice", el tEncryptedAssertion [] [el tAssertion [("ID", "a2")] [el "NameID" [] [.text "mallory"]]]]
+example : (flow recvDoc decrUnsigned true (chkOn recvDoc decrUnsigned)).adopted = none := by decide
+example : (flow recvDoc decrUnsigned false (chkOn recvDoc decrUnsigned)).adopted = some [.decrypted [1, 0], .clear [0]] := by decide
 
 end C02
